@@ -29,6 +29,9 @@ def shaped(g):
         out.append(("way-" + way, g.pair(flags={"way": way})))
     out.append(("embeds-deep", g.pair(embeds=1.0, depth2=1.0, deep=0.9, shadow=0.8)))
     out.append(("func-over", g.pair(kinds=["same", "conv", "sub"], func_over=1.0, n=(3, 5))))
+    out.append(("multi-name-decl", g.pair(kinds=["same"], names=["ident"], n=(4, 6), multiname=1.0, embeds=0.5)))
+    out.append(("multi-name-tagged", g.pair(kinds=["same"], names=["tag"], n=(4, 5), multiname=1.0, embeds=0.0)))
+    out.append(("universe-types", g.pair(kinds=["same", "oneway", "none"], names=["ident"], n=(5, 6))))
     # finding regions
     out.append(("multi", g.pair(multi=1.0, n=(1, 2), names=["ident"])))
     out.append(("namedscalar", g.pair(kinds=["namedscalar", "same"], n=(2, 3), names=["ident"])))
@@ -41,6 +44,7 @@ def shaped(g):
 
 
 def gen_cases(ctx):
+    mapgen.use_gotypes(ctx)
     g = mapgen.MapGen(ctx.rng)
     cases = []
     for i, (feat, sp) in enumerate([("witness-" + f, w) for f, w in mapgen.WITNESSES[PROP]()] + shaped(g)):
@@ -81,8 +85,10 @@ def run_cases(ctx, cases):
         rcs = [x["rc"] for x in r["runs"]]
         im["exit"] = "0" if all(x == 0 for x in rcs) else str([x for x in rcs if x != 0][0])
         im["compile"] = "ok" if r["compile"] == "ok" else "error"
+        if im["exit"] != "0":
+            im = {"exit": im["exit"]}          # the run failed: nothing else to observe
         gen = [v for k, v in r["written"].items() if k.endswith(".shootmap.%s.go" % c["spec"]["sname"].lower())]
-        if gen and r["compile"] == "ok":
+        if gen and r["compile"] == "ok" and im["exit"] == "0":
             im.update(mapgen.text_writes(c["spec"], gen[0]))
         impl[c["id"]] = im
         c["detail"] = {"stderr": r["runs"][-1]["stderr"][-600:], "compile": r["compile"],
@@ -93,7 +99,8 @@ def run_cases(ctx, cases):
         if not m:
             continue
         for side in ("model", "spec"):
-            m[side]["exit"] = "0"
+            m[side].setdefault("exit", "0")
+            mapgen.normalize_bool(c["spec"], m[side])
     return impl, model
 
 
